@@ -76,12 +76,19 @@ def remainder(top):
 
 
 def occurrences(hay, needle, limit=64):
+  """offsets at which needle occurs in hay: the last `limit/2` and the first `limit/2` ones (a kept
+  remainder is usually the tail of the frame; deeply nested frames repeat themselves a lot)"""
   out = []
   i = hay.find(needle)
-  while i >= 0 and len(out) < limit:
+  while i >= 0 and len(out) < limit // 2:
     out.append(i)
     i = hay.find(needle, i + 1)
-  return out
+  back = []
+  j = hay.rfind(needle)
+  while j >= 0 and len(back) < limit // 2 and j not in out:
+    back.append(j)
+    j = hay.rfind(needle, 0, j + len(needle) - 1) if j > 0 else -1
+  return sorted(set(out + back))
 
 
 def observe_rest(top, data):
